@@ -198,9 +198,19 @@ static Plan gen_merge(const std::string &prop, const std::string &tier, uint64_t
 			if (take) {
 				if (mfunc == MF_UNION) p.op("ent", { std::to_string(s), spec_of(pool[i]), std::to_string(r.chance(1, 20) ? 1 + r.below(300) : 0) });
 				else { Bytes v = "val"; size_t n = r.below(12); for (size_t q = 0; q < n; q++) v.push_back((char)('a' + r.below(3))); if (r.chance(1, 4)) v = kg.value(100); p.op("ent", { std::to_string(s), spec_of(pool[i]), "0", spec_of(v) }); }
+				// a user-defined source may hold the same key more than once (as a merger without merge function does)
+				if (user && r.chance(1, 8)) {
+					size_t nd = 1 + r.below(3);
+					for (size_t d = 0; d < nd; d++) {
+						Bytes v = "dup"; size_t n = r.below(6); for (size_t q = 0; q < n; q++) v.push_back((char)('a' + r.below(3)));
+						p.op("dupent", { std::to_string(s), spec_of(pool[i]), "0", spec_of(v) });
+					}
+				}
 			}
 		}
 	}
+	// the first `nest` sources sit behind an inner merger with the same options, which is then one source of the outer one
+	p.seti("nest", nsrc >= 2 && r.chance(1, 4) ? 2 + r.below(nsrc - 1) : 0);
 	if (prop == "C04") {
 		uint64_t d = r.below(20);
 		p.seti("observe", d < 14 ? 0 : d < 18 ? 1 : 2);	// 0 iterate, 1 mtbl_source_write, 2 src/mtbl_merge
@@ -259,12 +269,30 @@ bool mergeworld_build(const Plan &p, RunResult &res, MergeWorld &w, const std::s
 			v.push_back('\n');
 			if (w.mfunc != MF_UNION && o.a.size() > 3) v = o.argb(3);
 			w.srcs[id].ents[k] = v;
+		} else if (o.name == "dupent") {
+			size_t id = (size_t)o.argi(0);
+			if (id >= w.srcs.size() || !w.srcs[id].used || !w.srcs[id].user) continue;
+			Bytes k = o.argb(1);
+			if (!w.srcs[id].ents.count(k)) continue;	// only ever an additional copy of a key the source holds
+			Bytes v;
+			if (w.mfunc == MF_UNION) { char t[64]; snprintf(t, sizeof t, "s%zud%zu\n", id, w.srcs[id].extra.size()); v = t; }
+			else v = o.argb(3);
+			w.srcs[id].extra.push_back({ k, v });
 		}
 	}
 	size_t i = 0;
 	for (auto &s : w.srcs) {
 		if (!s.used) { i++; continue; }
 		mfmt::Entries e(s.ents.begin(), s.ents.end());
+		if (s.user && !s.extra.empty()) {
+			e.insert(e.end(), s.extra.begin(), s.extra.end());
+			// a source is a sorted stream: by key, copies of one key in dupsort (value) order
+			std::stable_sort(e.begin(), e.end(), [](const std::pair<Bytes, Bytes> &a, const std::pair<Bytes, Bytes> &b) {
+				int c = mfmt::cmp(a.first, b.first);
+				return c ? c < 0 : mfmt::cmp(a.second, b.second) < 0;
+			});
+			res.probes["source-with-repeated-keys"]++;
+		}
 		if (s.user) {
 			s.us.ents = e;
 			s.src = usource_make(&s.us);
@@ -278,18 +306,17 @@ bool mergeworld_build(const Plan &p, RunResult &res, MergeWorld &w, const std::s
 			s.src = mtbl_reader_source(s.reader);
 		}
 		if (e.empty()) res.probes["empty-source"]++;
-		for (auto &kv : e) { w.occ[kv.first]++; w.all.push_back({ kv.first, kv.second }); }
+		for (auto &kv : e) {
+			w.occ[kv.first]++; w.all.push_back({ kv.first, kv.second });
+			auto f = w.merged.find(kv.first);
+			if (f == w.merged.end()) w.merged[kv.first] = kv.second;
+			else f->second = fold_values(w.mfunc, f->second, kv.second);
+		}
 		i++;
 	}
 	for (auto &kv : w.occ) {
 		if (kv.second >= 2) w.shared_keys++;
 		if (kv.first.empty()) res.probes["empty-key-present"]++;
-	}
-	// merged model (merge function = multiset union)
-	for (auto &s : w.srcs) for (auto &kv : s.ents) {
-		auto f = w.merged.find(kv.first);
-		if (f == w.merged.end()) w.merged[kv.first] = kv.second;
-		else f->second = fold_values(w.mfunc, f->second, kv.second);
 	}
 	return true;
 }
@@ -323,14 +350,33 @@ static RunResult exec_merge(const Plan &p)
 	if (observe == 2 && (!all_tables || nsrc == 0 || mode != 0 || mc.fail_at || w.mfunc != MF_UNION)) observe = 0;
 	res.ev.u(nsrc); res.ev.u(mode); res.ev.u(observe);
 
-	mtbl_merger_options *mo = mtbl_merger_options_init();
 	if (mode == 3) { res.probes["merge-with-dupsort"]++; }
-	if (mode == 0 || mode == 3) mtbl_merger_options_set_merge_func(mo, merge_union_cb, &mc);
-	if (mode == 2 || mode == 3) mtbl_merger_options_set_dupsort_func(mo, dupsort_bytes_cb, nullptr);
+	auto make_merger = [&]() {
+		mtbl_merger_options *mo = mtbl_merger_options_init();
+		if (mode == 0 || mode == 3) mtbl_merger_options_set_merge_func(mo, merge_union_cb, &mc);
+		if (mode == 2 || mode == 3) mtbl_merger_options_set_dupsort_func(mo, dupsort_bytes_cb, nullptr);
+		mtbl_merger *mm = mtbl_merger_init(mo);
+		mtbl_merger_options_destroy(&mo);
+		return mm;
+	};
+	mtbl_merger *m = make_merger();
+	// nested: the first `nest` sources are merged by an inner merger (same options) that is one source of the outer
+	// one; the expected output is the same (the folds are associative and commutative, the dupsort order is global),
+	// but the outer merger now meets a source that can yield one key several times in a row
+	size_t nest = observe == 2 ? 0 : (size_t)p.geti("nest", 0);
+	if (nest > nsrc) nest = nsrc;
+	mtbl_merger *inner = nullptr;
+	if (nest >= 2) {
+		inner = make_merger();
+		res.probes["nested-merger-as-source"]++;
+		mc.fail_at = 0;	// the inner merger folds ahead of the outer one: which next() meets the failing call is not predictable
+	}
 	if (mode == 3) mode = 0;	// same expected output as plain merging: the fold is order-independent
-	mtbl_merger *m = mtbl_merger_init(mo);
-	mtbl_merger_options_destroy(&mo);
-	for (auto &s : w.srcs) if (s.used) mtbl_merger_add_source(m, s.src);
+	{
+		size_t k = 0;
+		for (auto &s : w.srcs) if (s.used) { mtbl_merger_add_source(inner && k < nest ? inner : m, s.src); k++; }
+		if (inner) mtbl_merger_add_source(m, mtbl_merger_source(inner));
+	}
 	const mtbl_source *msrc = mtbl_merger_source(m);
 
 	if (p.prop == "C05") {
@@ -374,9 +420,11 @@ static RunResult exec_merge(const Plan &p)
 				if (gk != pos->first) { res.fail("MODEL", mfmt::cmp(gk, pos->first) > 0 ? "MERGE-key-dropped" : "MERGE-key-order", "merger returned key " + short_repr(gk) + ", model expects " + short_repr(pos->first)); break; }
 				if (gv != pos->second) { res.fail("MODEL", "MERGE-value", "key " + short_repr(gk) + ": value " + short_repr(gv) + " is not the fold of exactly the source values " + short_repr(pos->second)); break; }
 				calls_before += need;
-				if (mc.calls != calls_before) { res.fail("MODEL", "MERGE-callcount", "after key " + short_repr(gk) + " the merge callback ran " + std::to_string(mc.calls) + " times, expected " + std::to_string(calls_before)); break; }
+				if (!inner && mc.calls != calls_before) { res.fail("MODEL", "MERGE-callcount", "after key " + short_repr(gk) + " the merge callback ran " + std::to_string(mc.calls) + " times, expected " + std::to_string(calls_before)); break; }
 				++pos; ++n;
 			}
+			if (inner && !res.viol && pos == w.merged.end() && mc.calls != calls_before)
+				res.fail("MODEL", "MERGE-callcount", "nested mergers: the merge callback ran " + std::to_string(mc.calls) + " times in total, expected " + std::to_string(calls_before));
 		} else {
 			// no merge function: every source entry, ascending by key; equal keys by dupsort or as a multiset
 			std::vector<std::pair<Bytes, Bytes>> want = w.all;
@@ -457,6 +505,7 @@ static RunResult exec_merge(const Plan &p)
 		}
 	}
 	mtbl_merger_destroy(&m);
+	if (inner) mtbl_merger_destroy(&inner);
 	for (auto &s : w.srcs) if (s.user && s.us.live_iters != 0) res.fail("MODEL", "ITER-LEAK", "merger left " + std::to_string(s.us.live_iters) + " source iterators alive after its iterators were destroyed");
 	mergeworld_destroy(w);
 	if (p.prop == "C04") res.nontrivial = nsrc >= 2 && w.shared_keys >= 1;
